@@ -42,10 +42,8 @@ m("gc-tls-not-traced", "src/GC.c",
   "mark(current(Thread), gc, (void(*)(var,void*))GC_Mark_And_Recurse);",
   "mark(current(Thread), gc, (void(*)(var,void*))GC_Mark_Item);",
   ["C01"], "reverts the thread-local-storage repair")
-m("gc-sweep-takes-roots", "src/GC.c",
-  "    if (not gc->entries[i].root and not gc->entries[i].marked) {",
-  "    if (not gc->entries[i].marked) {",
-  ["C01", "C17"], "unreachable-from-stack root objects are swept")
+# (dropped: "sweep takes roots" -- roots are always marked by GC_Mark first, so `not marked` alone is equivalent
+#  during every collection; it differs only in the teardown sweep, where the program has deleted its roots already)
 # ---------------- collector: registry ----------------
 m("gc-marks-left-set", "src/GC.c",
   "    if (gc->entries[i].marked) {\n      gc->entries[i].marked = false;\n      continue;\n    }",
@@ -70,7 +68,7 @@ m("gc-box-pending-entry-cleared", "src/GC.c",
 # ---------------- Table ----------------
 m("table-lookup-stops-one-early", "src/Table.c",
   "    uint64_t h = Table_Key_Hash(t, i);\n    if (h is 0 or j > Table_Probe(t, i, h)) {\n      throw(KeyError, \"Key %$ not in Table!\", key);\n    }\n    \n    if (eq(Table_Key(t, i), key)) {\n      return Table_Val(t, i);",
-  "    uint64_t h = Table_Key_Hash(t, i);\n    if (h is 0 or j >= Table_Probe(t, i, h) + 1 + (j > 2)) {\n      throw(KeyError, \"Key %$ not in Table!\", key);\n    }\n    \n    if (eq(Table_Key(t, i), key)) {\n      return Table_Val(t, i);",
+  "    uint64_t h = Table_Key_Hash(t, i);\n    if (h is 0 or j + (j > 2) > Table_Probe(t, i, h)) {\n      throw(KeyError, \"Key %$ not in Table!\", key);\n    }\n    \n    if (eq(Table_Key(t, i), key)) {\n      return Table_Val(t, i);",
   ["C02"], "get gives up after three probes in long collision runs")
 m("table-rehash-keeps-count", "src/Table.c",
   "  t->nslots = new_size;\n  t->nitems = 0;\n  t->data = calloc(t->nslots, Table_Step(t));",
@@ -122,10 +120,7 @@ m("array-sort-partition-off-by-one", "src/Array.c",
   "  for (int64_t i = l; i < r; i++) {\n    if (f(Array_Get(a, $I(i)), Array_Item(a, r))) {",
   "  for (int64_t i = l; i < r-1; i++) {\n    if (f(Array_Get(a, $I(i)), Array_Item(a, r))) {",
   ["C04"], "sort leaves the element before the pivot unexamined")
-m("tuple-concat-no-terminator", "src/Tuple.c",
-  "  t->items[nitems+objlen] = Terminal;\n  \n}",
-  "  if (objlen > 0) { t->items[nitems+objlen-1+1] = Terminal; }\n  \n}",
-  ["C04"], "concat of an empty iterable leaves the tuple unterminated after realloc")
+# (dropped: "tuple concat writes no terminator for an empty argument" -- realloc keeps the old terminator: equivalent)
 # ---------------- exceptions ----------------
 m("exc-handled-fires-again", "src/Exception.c",
   "  if (len(args) is 0) {\n    e->active = false;\n    return e->obj;",
